@@ -468,6 +468,8 @@ def gen_run(r, cfg):
         rt["chaos"] = r.choice(["none", "clear_lru", "clear_sympy"])  # in-memory copies do not survive a restart
     if route in ("str", "repr", "savetxt") and rt["chaos"] == "fresh_process" and custom:
         rt["chaos"] = "restart"
+    if rt["chaos"] == "fresh_process" and r.random() < cfg.get("p_newint", 0.0):
+        rt["chaos"] = "new_interpreter"  # exec of a real new interpreter instead of a pristine fork (~1 s)
     follows = []
     for _ in range(cfg["n_follow"]):
         f = r.choice(cfg["follow"])
@@ -493,6 +495,7 @@ def make_config(rng):
         "follow": sorted(set(r.sample(FOLLOW, r.randrange(6, 20)))),
         "n_follow": r.choice([2, 4, 6, 10]),
         "lru": r.choice([128, 128, 128, 2, 0, 8]),
+        "p_newint": 0.3 if os.environ.get("UNYTSIM_TIER") == "thorough" else 0.04,
     }
 
 
@@ -520,6 +523,39 @@ def cold_eval(req):
     for fop in req["follows"]:
         out["follows"].append(run_follow(fop, me, me))
     return out
+
+
+_NEWINT = (
+    "import sys, pickle; sys.path.insert(0, sys.argv[2]); "
+    "from unytsim import core; core.import_unyt(); from unytsim import c11sim; "
+    "req = pickle.load(open(sys.argv[1], 'rb')); "
+    "sys.stdout.buffer.write(pickle.dumps(c11sim.cold_eval(req), protocol=4))"
+)
+
+
+def new_interpreter_eval(req):
+    """The restore and the follow-ups of the restored lineage in a real new
+    interpreter (exec, fresh import of unyt): validates that the pristine
+    fork used for chaos=fresh_process is a faithful stand-in."""
+    import pickle as _p
+    import subprocess
+    import sys
+    import tempfile
+
+    fd, path = tempfile.mkstemp(prefix="unytsim-c11-", suffix=".req", dir="/dev/shm")
+    try:
+        with os.fdopen(fd, "wb") as f:
+            _p.dump(req, f, protocol=4)
+        env = dict(os.environ)
+        p = subprocess.run([sys.executable, "-c", _NEWINT, path, rw.VERIF_DIR], env=env, capture_output=True, timeout=100)
+        if p.returncode != 0:
+            return ("crash", p.stderr.decode(errors="replace")[-1500:])
+        return ("ok", _p.loads(p.stdout))
+    finally:
+        try:
+            os.unlink(path)
+        except OSError:
+            pass
 
 
 def o1_describe(obj, reg):
@@ -603,7 +639,7 @@ class Sim11:
         self.count("dump:" + route)
         # ---- the original lineage's outcomes are needed before a restart
         orig_out = {}
-        if chaos in ("restart", "fresh_process"):
+        if chaos in ("restart", "fresh_process", "new_interpreter"):
             for i, fop in enumerate(follows):
                 orig_out[i] = run_follow(fop, orig, orig)
         # ---- volatile-state fault between dump and load
@@ -618,10 +654,13 @@ class Sim11:
                 reg._unit_object_cache.clear()
         self.fault("chaos_" + chaos)
         self.step_no = 3
-        if chaos == "fresh_process":
+        if chaos in ("fresh_process", "new_interpreter"):
             req = {"payload": payload, "regop": regop, "need_reg": route in ("str", "repr"), "follows": follows,
                    "orig_keys": sorted(reg.lut)}
-            tag, res = self.chan.cold(req)
+            if chaos == "new_interpreter":
+                tag, res = new_interpreter_eval(req)
+            else:
+                tag, res = self.chan.cold(req)
             if tag != "ok":
                 raise HarnessError(f"fresh-process restore failed: {tag} {res}")
             if "restore_exc" in res:
@@ -632,7 +671,7 @@ class Sim11:
             self.check_o1(before, res["o1"], rt, build)
             for i, fop in enumerate(follows):
                 self.step_no = 4 + i
-                self.check_o2(fop, orig_out[i], res["follows"][i], "fresh_process")
+                self.check_o2(fop, orig_out[i], res["follows"][i], chaos)
             self.log.add({"o1": res["o1"], "follows": res["follows"], "orig": orig_out})
             return
         try:
